@@ -306,17 +306,12 @@ def r4_offsets(ck, F, R="C02-R4"):
     ck.ob(R, "reset-restarts-interval-counter", zc == [0], f"reset sets index_key_counter to 0 (stores: {zc})", rs)
     # reader side: table rebuilt in order from the bytes before the count
     rf = F.body(A("block_read_from"))
-    ext = [s for s, c, t in calls(rf, "Extend<T>>::extend") if is_self_field(rf.arg_exprs(s)[0], "index_offsets")]
-    ck.exact(R, "table rebuilds in Block::read_from", len(ext), 1, F.config)
-    if ext:
-        it = rf.arg_exprs(ext[0])[1]
-        names = [x.x["path"].rsplit("::", 1)[-1] for x in it.walk() if x.k == "call"]
-        fns = [x.x["path"] for x in it.walk() if x.k == "fn"]
-        from .fmt import int_conv
-        convs = [int_conv(x.x.get("info") or {"path": x.x["path"]}) for x in it.walk() if x.k == "fn"]
-        ok = "chunks_exact" in names and any(cv is not None and cv[:2] == ("u64", "BE") and cv[2] == "read" for cv in convs) and "rev" not in names
-        cx = [x for x in it.walk() if x.k == "call" and x.x["path"].endswith("chunks_exact")]
-        ok = ok and cx and const_val(cx[0].a[1]) == 8
-        ck.ob(R, "reader-table-order", ok, f"Block::read_from rebuilds the table with chunks_exact(8) -> u64::from_be_bytes in stored order", rf, ext[0])
+    from .fmt import table_rebuild
+    tr = table_rebuild(F)
+    ck.exact(R, "table rebuilds in Block::read_from", 1 if tr else 0, 1, F.config)
+    if tr:
+        ok = tr["chunk"] is not None and const_val(tr["chunk"].a[1]) == 8 and not tr["reversed"] and any(cv[:2] == ("u64", "BE") and cv[2] == "read" for cv in tr["convs"]) and all(cv[1] == "BE" for cv in tr["convs"] if cv[0] == "u64")
+        ck.ob(R, "reader-table-order", ok, f"Block::read_from rebuilds the table with chunks_exact(8) -> u64::from_be_bytes in stored order ({tr['form']} form)", rf, tr["site"])
     clr = [s for s, c, t in calls(rf, "Vec::<T, A>::clear") if is_self_field(rf.arg_exprs(s)[0], "index_offsets")]
-    ck.ob(R, "reader-table-cleared", len(clr) == 1 and ext and rf.dominates(clr[0], ext[0]), "the table is cleared before it is rebuilt", rf)
+    okc = len(clr) == 1 and tr is not None and rf.dominates(clr[0], tr["site"]) and not rf.in_loop(clr[0].bb)
+    ck.ob(R, "reader-table-cleared", okc, "the table is cleared (once, outside any loop) before it is rebuilt", rf)
